@@ -439,6 +439,11 @@ PROPS["C11"] = {"theorems": ["C11_scalar", "C11_scalar_schema", "C11_scalar_vali
                         "schema; non-trivial = the validator accepted one and rejected another of the case's values"}
 
 
+def _replay_ann(case: dict) -> List[str]:
+    from . import ann_stream
+    return ann_stream.replay_case(case)
+
+
 def _run_ann(pid: str, tier: str, seed: int, spec: dict, scale: float = 1.0, salt: str = "") -> dict:
     from . import ann_stream
     return ann_stream.run(pid, tier, seed, spec, scale, salt)
@@ -466,7 +471,7 @@ PROPS["C07"] = {"theorems": ["C07_strict_tree_partial", "C07_strict_iff_partial"
                               "`OracleTyped`), and the List[T] step (item sound+complete => list sound+complete, every fuel); "
                               "dict / set / Literal / record / Annotated forms, and 'payload equal to x where nothing coerces' "
                               "for containers, are decided by the correspondence stream and the model-free isinstance-style oracle only",
-                "run": _run_ann,
+                "run": _run_ann, "replay": _replay_ann,
                 "rule": "annotations generated from the supported grammar to depth 3 (generated dataclass / NamedTuple / "
                         "TypedDict classes with random fields, defaults, totality) x 6 (quick) / 12 (thorough) values each: "
                         "conforming, conforming except at one position, arbitrary; non-trivial = the derived validator "
@@ -491,7 +496,7 @@ def _run_sig(pid: str, tier: str, seed: int, spec: dict, scale: float = 1.0, sal
 
 def _replay_sig(case: dict) -> List[str]:
     if "ann" in case:
-        return ["replay of annotation cases: run ./check C07 --replay"]
+        return _replay_ann(case)
     from . import sig_stream
     return sig_stream.replay_case(case)
 
